@@ -31,6 +31,7 @@ def cases(tier, seed):
     out = [{"kind": "small", "n": n} for n in range(1, 7)]
     ngen = 500 if tier == "quick" else 300000
     out += [{"kind": "gen", "i": i, "seed": seed} for i in range(ngen)]
+    out += _embedded.assembly_cases(seed, 48 if tier == "quick" else 2400, features=True, max_chain=3)
     return out
 
 
@@ -58,8 +59,10 @@ def _small(n):
 
 
 def materialise(case):
-    if "rec" in case:
+    if "rec" in case or case.get("kind") == "assembly-mat":
         return case
+    if case["kind"] == "assembly":
+        return _embedded.materialise_assembly(case)
     if case["kind"] == "small":
         return _small(case["n"])
     rng = gen.rng_for(case["seed"], PROP, case["i"])
@@ -101,6 +104,24 @@ def _equiv(ctx, a, b, mech, msg, n):
 
 
 def execute(mat, ctx):
+    if mat["kind"] == "assembly-mat":
+        # embedded: annotated assembly inputs (hostile rotations, boundary-snapped and origin-spanning features) are
+        # reverse-complemented - each call judged by the monitor - and the reverse complements assembled
+        import warnings
+        V, M = gen.generic_classes(mat["enzyme"])
+        recs = [gen.make_record(mat["vector"])] + [gen.make_record(m) for m in mat["modules"]]
+        rcs = [r.reverse_complement() for r in recs]
+        ctx.count("evaluations")
+        ctx.count("embedded_assembly_inputs_reverse_complemented", len(rcs))
+        with warnings.catch_warnings():
+            warnings.simplefilter("ignore")
+            try:
+                V(rcs[0]).assemble(*[M(r) for r in rcs[1:]])
+            except Exception:
+                pass
+        if any(s["features"] for s in [mat["vector"]] + mat["modules"]):
+            ctx.nontrivial(["asm", mat["enzyme"], mat["vector"]["seq"], [m["seq"] for m in mat["modules"]]])
+        return
     n = len(mat["rec"]["seq"])
     for run in mat["runs"]:
         ctx.count("evaluations")
